@@ -44,14 +44,16 @@ HonestSel(a) ==
 \* the malformed-header formats are crafted with the new generation's nonce (that is where they are
 \* decided by check_output) at the depths where they matter: the clamp of the depth byte at 4 (and
 \* 3, where the clamped depth is wrong), a depth byte one too small at 1 and 4, byte 0 at 0 and 2
+HeaderFmts == {"b0", "dp5", "dp255", "dpm1"}
+\* (a configuration that sets CraftDepths crafts them at those depths instead)
 FmtDepths(fmt) ==
   CASE fmt \in {"dp5", "dp255"} -> {3, 4}
     [] fmt = "dpm1" -> {1, 4}
     [] fmt = "b0" -> {0, 2}
     [] OTHER -> CraftDepths
 CraftSel(a) ==
-  /\ Len(a.path) \in FmtDepths(a.fmt)
-  /\ a.fmt \in {"b0", "dp5", "dp255", "dpm1"} => a.fam = "new"
+  /\ Len(a.path) \in (IF a.fmt \in HeaderFmts /\ CraftDepths # {} THEN CraftDepths ELSE FmtDepths(a.fmt))
+  /\ a.fmt \in HeaderFmts => a.fam = "new"
   /\ Idx(AmtList, a.amt) = ((FCode(a) + SelSeed) % Len(AmtList)) + 1
   /\ MemberIdx(a, CompList, NC) = Target(FCode(a), 1, NS * Pow(NC, Len(a.path)))
 SelectedOut(a) == IF Honest(a) THEN HonestSel(a) ELSE CraftSel(a)
@@ -85,7 +87,7 @@ OutCase(o) ==
 EmitOut == \A o \in outs : SelectedOut(o.args) => PrintT(<<"KCASE", ToJson(OutCase(o))>>)
 \* (the formats configuration also contains honest outputs, for the padding / extra-data invariants; they
 \* are emitted by the rewind configuration)
-EmitCraft == \A o \in outs : (~Honest(o.args) /\ SelectedOut(o.args)) => PrintT(<<"KCASE", ToJson(OutCase(o))>>)
+EmitCraft == \A o \in outs : (o.args.fmt \in HeaderFmts /\ SelectedOut(o.args)) => PrintT(<<"KCASE", ToJson(OutCase(o))>>)
 
 \* ---- pairs of outputs differing in at least two coordinates (the one-coordinate neighbours are the
 \* siblings of every case): commitments differ unless the arguments are equal, a proof moved to the
@@ -153,7 +155,8 @@ PairClass(c1, c2) ==
          (IF c1 = c2 THEN "mn_same"
           ELSE IF c1.w = c2.w THEN "mn_other_pass"
           ELSE IF c1.p = c2.p THEN "mn_other_words" ELSE "other")
-    [] c1.k = "masked" /\ c2.k = "seed" -> (IF c1.b = c2.b THEN "masked_vs_base" ELSE "other")
+    [] c1.k = "masked" /\ c2.k = "seed" ->
+         (IF c1.b # c2.b THEN "other" ELSE IF SameWallet(c1, c2) THEN "masked_twice_vs_base" ELSE "masked_vs_base")
     [] c1.k = "masked" /\ c2.k = "masked" ->
          (IF c1.m = c2.m THEN "other"
           ELSE IF Len(c1.m) = 2 /\ Len(c2.m) = 2 /\ c1.m[1] = c2.m[2] /\ c1.m[2] = c2.m[1] THEN "masked_commute"
@@ -167,8 +170,9 @@ CtorCode(c) ==
 \* every class is always represented: the classes in WalAlways by all their pairs, the others by
 \* WalPicks pairs chosen pseudo-randomly in the run seed
 WalClasses == {"seed_same", "seed_shared32", "seed_shared16", "seed_prefix", "mn_is_seed_of_mn", "mn_seed_other_pass",
-               "mn_same", "mn_other_pass", "mn_other_words", "masked_vs_base", "masked_commute", "masked_vs_masked"}
-WalAlways == {"masked_vs_base", "masked_commute", "mn_is_seed_of_mn"}
+               "mn_same", "mn_other_pass", "mn_other_words", "masked_vs_base", "masked_twice_vs_base", "masked_commute",
+               "masked_vs_masked"}
+WalAlways == {"masked_commute"}
 ClassPairs(cl) == {pr \in Ctors \X Ctors : PairClass(pr[1], pr[2]) = cl}
 WalHash(pr, j) == ((CtorCode(pr[1]) * 13 + CtorCode(pr[2]) * 7 + j * 101) * (SelSeed + 17)) % 1009
 Pick(S, j) == CHOOSE p \in S : \A q \in S : WalHash(p, j) <= WalHash(q, j)
@@ -177,6 +181,6 @@ WalSelection ==
 SelectedWal(c1, c2) == <<c1, c2>> \in WalSelection
 WalCase(c1, c2) == [kind |-> "wal", c1 |-> c1, c2 |-> c2, class |-> PairClass(c1, c2), same |-> SameWallet(c1, c2)]
 EmitWal ==
-  (Part = "wallet" /\ world # <<>> /\ SelectedWal(world.c1, world.c2)) =>
+  ("wallet" \in Parts /\ world # <<>> /\ "c1" \in DOMAIN world /\ SelectedWal(world.c1, world.c2)) =>
     PrintT(<<"KCASE", ToJson(WalCase(world.c1, world.c2))>>)
 =======================================================================
